@@ -33,6 +33,7 @@ def run(tier, seed, replay):
                 texts.append(tg.shape_program(s, ctx, var))
     texts += tg.repo_corpus()
     texts += [t for t in tg.token_mutations(rng) if "0x" in t or "0b" in t]
+    texts += tg.numeric_programs()
     texts += [t for t in tg.edge_texts() if "far" in t or "back" in t or "lbl" in t or ":" in t.split("\n")[1][:6]]
     nshape = len(texts)
     texts += [tg.program(rng, nlines=rng.randrange(2, 14)) for _ in range(600 if tier == "quick" else 6000)]
